@@ -65,3 +65,47 @@ def merge(outs: List[Dict[str, Any]]) -> Dict[str, Any]:
     return {'violations': [v for o in outs for v in o['violations']], 'coverage': cov,
             'errors': [e for o in outs for e in o['errors']], 'assumptions': first['assumptions'],
             'bounds': cov.get('bounds'), 'level': 'model_checking', 'complete': all(o.get('complete', True) for o in outs)}
+
+
+def run_closure(factory: Callable[..., Any], fargs: tuple, units: Sequence[Any], seed: int, workers: Optional[int],
+                rule: str, bounds: Dict[str, Any], max_states: int = 60000, time_limit: Optional[float] = None,
+                cross_budget: Optional[Dict[str, int]] = None, describe: Callable[[Any], Any] = repr) -> Dict[str, Any]:
+    """Stateful closure search (explore.closure) of every unit; same result shape as ``run_explorer``."""
+    units = rotate(units, seed)
+    deadline = time.time() + time_limit if time_limit else None
+    agg, infos = explore.closure_units(factory, fargs, units, workers=workers, max_states=max_states, deadline=deadline,
+                                       cross_budget=cross_budget)
+    violations = sorted(agg.violations, key=lambda v: (explore.cost_of(v), repr(v.get('unit')), v.get('choices')))
+    for v in violations:
+        v.pop('_key', None)
+    capped_units = [i for i in infos if i['capped']]
+    missing = sum(i['cross_missing'] for i in infos)
+    coverage = {
+        'states': sum(i['states'] for i in infos),
+        'transitions': agg.transitions,
+        'traces_validated_against_impl': agg.executions,
+        'evaluations': agg.executions,
+        'distinct_nontrivial': agg.nontrivial,
+        'distinct_outcomes': len(agg.outcomes),
+        'programs': len(units),
+        'rule': rule,
+        'samples': sorted(agg.samples, key=repr)[:2] or [describe(u) for u in units[:2]],
+        'exhaustive': not capped_units and not agg.errors,
+        'caps_hit': len(capped_units),
+        'bounds': bounds,
+        'violating_executions': agg.violation_count,
+        'violation_signatures': len(agg.by_key),
+        'closure': {
+            'units_closed': len(infos) - len(capped_units), 'units_capped': len(capped_units),
+            'canonical_states': sum(i['states'] for i in infos), 'largest_unit_states': max([i['states'] for i in infos] or [0]),
+            'longest_history': max([i['max_depth'] for i in infos] or [0]),
+            'key_crosscheck_points': sum(i['cross_points'] for i in infos), 'key_crosscheck_missing': missing,
+        },
+    }
+    for k, v in sorted(agg.extra.items()):
+        coverage[f'count_{k}'] = v
+    if missing:
+        print(f'WARNING closure key cross-check: {missing} worlds of the budgeted stateless search are not in the closure '
+              f'(the canonical key merges states with different futures; the closure evidence counts for less)')
+    return {'violations': violations, 'coverage': coverage, 'errors': agg.errors, 'assumptions': [],
+            'bounds': bounds, 'level': 'model_checking', 'complete': not capped_units}
